@@ -1,7 +1,7 @@
 from vlib.core import *
 
 META = dict(
-    level_text="Proved for every size n, every input matrix, every shift and every value of the machine parameters (any ordered field with a square-root function; exact arithmetic): the translated compute_rotation annihilates exactly in all sign/zero cases and both branches, is an ideal rotation in the standard branch and has orthogonality defect <= (5/8)t^6 in the series branch; for UpperHessenbergQR the whole property as Mathlib Matrix statements (Q'Q = 1, Q R = H - sI, R upper triangular, matrix_QtHQ = R Q + sI = Q'HQ and upper Hessenberg, every apply_* = multiplication by that Q / Q' from the stated side, the latter unconditionally); for TridiagQR Q'(T - sI) = R, Q R = T - sI, band/symmetric-tridiagonal shapes by construction, the closed Q'TQ formulas = entries of G'TG, the dropped bulge is exactly zero, deflation drops only negligible entries; for DoubleShiftQR the reflector kernel (unit u, (I - 2uu')x = rho*||x||*e1), first column of H^2 - sH + tI, Q e1 = P0 e1 parallel to it, the same Q applied from both sides, and index safety of the reflector row counts for every deflation pattern / block split. Not proved: the floating-point error bound c*n*eps*(||H||+|s|) (checked on the real classes in long double for float, double and long double) and the DoubleShiftQR similarity Q'HQ as a whole-matrix theorem. One known finding (absolute deflation threshold near underflow).",
+    level_text="Proved for every size n, every input matrix, every shift and every value of the machine parameters (any ordered field with a square-root function; exact arithmetic): the translated compute_rotation annihilates exactly in all sign/zero cases and both branches, is an ideal rotation in the standard branch and has orthogonality defect <= (5/8)t^6 in the series branch; for UpperHessenbergQR the whole property as Mathlib Matrix statements (Q'Q = 1, Q R = H - sI, R upper triangular, matrix_QtHQ = R Q + sI = Q'HQ and upper Hessenberg, every apply_* = multiplication by that Q / Q' from the stated side, the latter unconditionally); for TridiagQR Q'(T - sI) = R, Q R = T - sI, band/symmetric-tridiagonal shapes by construction, the closed Q'TQ formulas = entries of G'TG, the dropped bulge is exactly zero, deflation drops only negligible entries; for DoubleShiftQR the reflector kernel (unit u, (I - 2uu')x = rho*||x||*e1), first column of H^2 - sH + tI, Q e1 = P0 e1 parallel to it, the same Q applied from both sides, index safety of the reflector row counts for every deflation pattern / block split, and the similarity transform as a whole-matrix theorem (c08_dsqr_similarity_partial: for every n, input, shifts and block split, matrix_QtHQ = Q'(Hm - D1)Q - D2 with Q = P0...P(n-2) the matrix apply_YQ/apply_QtY multiply by, Q'Q = QQ' = 1, D1/D2 the explicitly described subdiagonal entries the two deflation passes drop, Q'(Hm - D1)Q and matrix_QtHQ upper Hessenberg with exact zeros; c08_dsqr_similarity_nodrop_partial: with nothing dropped matrix_QtHQ = Q'HQ exactly and the characteristic polynomial is preserved) under the hypothesis RunExact that no compute_reflector argument lies in the underflow window 0 < |x| < 10*min() (c08_dsqr_runexact_two: holds for every non-deflated 2x2 input with |m10| >= 10*min(); inside the window the exact identities are false). Not proved: the floating-point error bound c*n*eps*(||H||+|s|) (checked on the real classes in long double for float, double and long double) and the DoubleShiftQR identities inside the underflow window. One known finding (absolute deflation threshold near underflow).",
     note="Lean kernel + propext/Classical.choice/Quot.sound; translator xlate + clang-14 AST (differential-tested every run); hand models of the three classes tied to the C++ by bit-exact correspondence on sampled inputs; Eigen numext::hypot re-implemented; double only in the correspondence (float/long double by the scalar-generic theorems)",
     technique="Lean 4 proof (field_simp/nlinarith/ring, induction over loops) on source-translated kernels and executable models + bit-exact differential correspondence + long-double oracle",
     design="§5 C08", harnesses=['c08'])
